@@ -20,6 +20,7 @@ pub struct Plan {
     pub napp: usize,
     pub user_maps: Vec<(u64, u64, String, Vec<u8>)>,   // caller-supplied mappings (start, size, name, identifier)
     pub blame_idx: Option<usize>,   // blame this scenario thread (with or without a crash context)
+    pub crash_ip: Option<u64>,     // the crash context's instruction pointer (instead of a generated one)
     pub retarget_principal: Option<u64>,   // the writer first serves a request as configured, then the caller points the principal mapping elsewhere
     pub direct_chain: bool,         // the caller supplies auxiliary values that lead to the synthetic linker list of the target
     pub exit_between: Option<usize>, // with a history: after the abandoned request this thread is taken by another tracer (it exists, but cannot be attached any more)
@@ -92,12 +93,12 @@ pub fn gen_plan(rng: &mut Rng, focus: &str, tier: &str, case_idx: u64) -> Plan {
         }
     }
     let blame_late = late_fixed || (focus == "c06" && many && !boundary && rng.chance(1, 2));
-    if lost_crash_stack { return Plan { scen: Scenario { threads, lines }, blame_late: false, crash: 1, limit: None, sanitize: false, user_maps: vec![], skip: 6, napp, blame_idx: None, retarget_principal: None, direct_chain: false, exit_between: None }; }
-    if stack_only { return Plan { scen: Scenario { threads, lines }, blame_late: false, crash: 0, limit: None, sanitize: !low_principal, user_maps: vec![], skip: if low_principal { 5 } else { 4 }, napp, blame_idx: None, retarget_principal: None, direct_chain: false, exit_between: None }; }
+    if lost_crash_stack { return Plan { scen: Scenario { threads, lines }, blame_late: false, crash: 1, limit: None, sanitize: false, user_maps: vec![], skip: 6, napp, blame_idx: None, crash_ip: None, retarget_principal: None, direct_chain: false, exit_between: None }; }
+    if stack_only { return Plan { scen: Scenario { threads, lines }, blame_late: false, crash: 0, limit: None, sanitize: !low_principal, user_maps: vec![], skip: if low_principal { 5 } else { 4 }, napp, blame_idx: None, crash_ip: None, retarget_principal: None, direct_chain: false, exit_between: None }; }
     Plan { scen: Scenario { threads, lines }, blame_late, crash: if blame_late { 2 } else if force_k1 { 3 } else if focus == "c05" || focus == "c07" { rng.below(4) as u8 } else if rng.chance(1, 3) { rng.range(1, 2) as u8 } else { 0 },
            limit: if blame_late || boundary { Some(1) } else if focus == "c06" { if rng.chance(2, 3) { Some(*rng.pick(&[1u64, 1000, 100_000, 200_000, 300_000, 1 << 30])) } else { None } } else if rng.chance(1, 6) { Some(1) } else { None },
            sanitize: rng.chance(1, if focus == "c12" { 1 } else { 5 }), user_maps: vec![],
-           skip: if focus == "c20" { rng.range(1, 3) as u8 } else if rng.chance(1, 8) { 1 } else { 0 }, napp, blame_idx: None, retarget_principal: None, direct_chain: false, exit_between: None }
+           skip: if focus == "c20" { rng.range(1, 3) as u8 } else if rng.chance(1, 8) { 1 } else { 0 }, napp, blame_idx: None, crash_ip: None, retarget_principal: None, direct_chain: false, exit_between: None }
 }
 
 pub struct Live { pub target: Target, pub world: World, pub image: Result<Vec<u8>, String>, pub plan: Plan, pub blamed: i32, pub crash: Option<CrashContext>, pub app: Vec<(u64, usize)>, pub principal: Option<u64>, pub events: Vec<String>, pub unattachable: Vec<i32> /* threads another tracer holds: they exist but cannot be attached */ }
@@ -122,6 +123,7 @@ pub fn configure(rng: &mut Rng, plan: &Plan, target: &Target) -> Configured {
         // unset, another live thread, or arbitrary in half of the cases
         match rng.below(6) { 0 => cc.inner.tid = 0, 1 if nth > 0 => cc.inner.tid = target.tids[rng.below(nth as u64) as usize], 2 => cc.inner.tid = (rng.next() >> 40) as i32, _ => {} }
         let (sp, ip) = if plan.skip == 6 { (0x2000u64, anon[2] + 0x10) } else { (sp, ip) };
+        let ip = plan.crash_ip.unwrap_or(ip);
         cc.inner.context.uc_mcontext.gregs[libc::REG_RSP as usize] = sp as i64;
         cc.inner.context.uc_mcontext.gregs[libc::REG_RIP as usize] = ip as i64;
         let copy = CrashContext { inner: cc.inner.clone() };
@@ -493,6 +495,9 @@ pub fn run(a: &Args) {
         // one case in four: the writer has already served a request that was abandoned after an I/O error of its destination;
         // one fixed C05 history per run: no crash context, the blamed thread can be attached during the abandoned request and is held by another tracer afterwards (present in the target, absent from the thread list)
         let mut plan = plan;
+        // one fixed C07 shape per run: the zero page is mapped (a privileged or legacy target) and the crash instruction pointer lies
+        // in its first 128 bytes - the window is clipped at address 0
+        if focus == "c07" && case_idx == 3 { plan.scen.lines.push("anonat 0 1 rwx".into()); plan.crash = 1; plan.skip = 0; plan.blame_late = false; plan.crash_ip = Some(*rng.pick(&[0x10u64, 0, 127, 1])); out.count("shape.zero_page_mapped_crash_ip_below_128"); }
         let gone = focus == "c05" && case_idx == 1;
         if gone { plan.crash = 0; plan.skip = 0; plan.scen.threads.push(ThreadSpec { kind: Kind::Block, sp_off: 0x800, pages: 2, name: Some(b"taken".to_vec()), at: None }); plan.blame_idx = Some(plan.scen.threads.len() - 1); plan.exit_between = plan.blame_idx; }
         // one fixed C04 run: no group stop before the attach (StopProcess fail point), so that the writer really waits for each
